@@ -358,6 +358,9 @@ def c_dev16(run):
     r15_closed.check_unitquaternion_ctor(run)
     r16_tables.tables_c19(run)
     r16_tables.tables_c20(run)
+    r16_tables.tables_c18(run)
+    r16_tables.tables_c05(run)
+    r16_tables.tables_c14(run)
     run.explanation = 'dev R16'
 
 
